@@ -117,6 +117,8 @@ def run_unit(unit, rng, ctx):
         for s1, s2 in sel + [(b, a) for a, b in sel]:
             if (s1, s2) in raw:
                 continue
+            if rng.uniform() < 0.3:
+                _ = traj.displacements  # history: the source was last used in displacement representation
             out = radial_distribution_between_species(trajectory=traj, specie_1=s1, specie_2=s2, max_dist=max_dist, resolution=res)
             d = D[:, idx[s1]][:, :, idx[s2]].ravel()
             selfpairs = int(np.sum(d == 0)) if s1 == s2 else 0
@@ -154,7 +156,24 @@ def run_unit(unit, rng, ctx):
                 ctx.case(None, False)
                 return
             raise
+        # history: displacement-based queries on the full / diffusing trajectory between the site
+        # analysis and the RDF (they switch the internal representation in place)
+        hist_q = str(rng.choice(['none', 'msd', 'distances', 'displacements', 'drift', 'com', 'diff_displacements']))
+        if hist_q == 'msd':
+            _ = tr.trajectory.mean_squared_displacement()
+        elif hist_q == 'distances':
+            _ = tr.trajectory.distances_from_base_position()
+        elif hist_q == 'displacements':
+            _ = tr.trajectory.displacements
+        elif hist_q == 'drift':
+            _ = tr.trajectory.drift()
+        elif hist_q == 'com':
+            _ = tr.trajectory.center_of_mass()
+        elif hist_q == 'diff_displacements':
+            _ = tr.diff_trajectory.displacements
+        ctx.count(f'query_before_rdf:{hist_q}')
         rd = radial_distribution(transitions=tr, floating_specie='Li', max_dist=max_dist, resolution=res)
+        what += f' [after {hist_q}]' if hist_q != 'none' else ''
     states = np.asarray(tr.states)
     prev = models.ffill_model(states)
     nxt = models.bfill_model(states)
